@@ -935,6 +935,7 @@ func (s *Service) runPipeline(ctx context.Context, rp *runnablePipeline) error {
 	s.runningPipelines.Set(rp.pipeline.ID, rp)
 	s.publishMu.Unlock()
 
+	var startErr error
 	err := s.pipelines.UpdateStatus(ctx, rp.pipeline.ID, pipeline.StatusRunning, "")
 	if err != nil {
 		// Roll back the publication above: this run never went live, so it
@@ -948,7 +949,16 @@ func (s *Service) runPipeline(ctx context.Context, rp *runnablePipeline) error {
 		// meantime), a blind Delete(id) would remove that OTHER run instead
 		// of just undoing this one's own publication.
 		s.deleteRunningPipelineIfCurrent(rp.pipeline.ID, rp)
-		return err
+		// The node goroutines are ALREADY running on rp.t (they were started
+		// above). Returning here, before the cleanup goroutine below is
+		// registered, would leave them running with no owner: the pipeline
+		// reports Running (UpdateStatus sets the in-memory status before the
+		// store write), Stop finds no entry, nothing ever tears the plugins
+		// down and every later Start is refused ("connector is running").
+		// Stop the nodes and register the cleanup goroutine all the same: it
+		// waits them out and finalizes the run (Degraded, terminal error).
+		startErr = cerrors.Errorf("could not mark pipeline %s as running: %w", rp.pipeline.ID, err)
+		rp.t.Kill(cerrors.FatalError(startErr))
 	}
 
 	// cleanup function updates the metrics and pipeline status once all nodes
@@ -1029,10 +1039,14 @@ func (s *Service) runPipeline(ctx context.Context, rp *runnablePipeline) error {
 		// fix closes. See deleteRunningPipelineIfCurrent.
 		s.deleteRunningPipelineIfCurrent(rp.pipeline.ID, rp)
 
-		s.notify(rp.pipeline.ID, err)
+		// A run whose Start failed (see startErr above) was already reported
+		// to the caller of Start; the failure handlers are for runs that went live.
+		if startErr == nil {
+			s.notify(rp.pipeline.ID, err)
+		}
 		return err
 	})
-	return nil
+	return startErr
 }
 
 // deleteRunningPipelineIfCurrent removes id's entry from runningPipelines
